@@ -127,6 +127,7 @@ type builder struct {
 	// cases — so that keys a resolver might build by concatenation (kind + alias, namespace + name) meet
 	pool      []string
 	bareAlias bool
+	allowDup  bool // see DrawSource
 }
 
 // kindWords are words a resolver could glue to a name when it builds a lookup key.
